@@ -82,6 +82,8 @@ type Conn struct {
 	Writes      []int
 	Deadlines   []DeadlineCall
 	CloseCalls  int
+	localAddr   net.Addr
+	remoteAddr  net.Addr
 	writeErr    error // injected: next writes fail
 	readBudget  int   // inject read error after this many more bytes (-1 = off)
 	readBudgErr error
@@ -214,13 +216,28 @@ type addr string
 func (a addr) Network() string { return "tcp" }
 func (a addr) String() string  { return string(a) }
 
+// SetAddrs overrides the addresses the endpoint reports (nil keeps the default).
+func (c *Conn) SetAddrs(local, remote net.Addr) {
+	c.l.mu.Lock()
+	c.localAddr, c.remoteAddr = local, remote
+	c.l.mu.Unlock()
+}
+
 func (c *Conn) LocalAddr() net.Addr {
+	if c.localAddr != nil {
+		return c.localAddr
+	}
 	if c.Name == "A" {
 		return &net.TCPAddr{IP: net.IPv4(127, 0, 0, 1), Port: 40001}
 	}
 	return &net.TCPAddr{IP: net.IPv4(127, 0, 0, 1), Port: 40002}
 }
-func (c *Conn) RemoteAddr() net.Addr { return c.peer.LocalAddr() }
+func (c *Conn) RemoteAddr() net.Addr {
+	if c.remoteAddr != nil {
+		return c.remoteAddr
+	}
+	return c.peer.LocalAddr()
+}
 
 func (c *Conn) setDeadline(kind string, t time.Time) error {
 	l := c.l
